@@ -108,3 +108,11 @@ claim('C08',
       "signatures the node classes document.",
       "contract-based deductive verification: exhaustive one-level skeletons derived from the ASDL signatures, executed on the real functions",
       "DESIGN.md 3 C08")
+claim('C06',
+      "ClassObject._attrs and InstanceValue._attrs/_assigned_attrs are proved, at an arbitrary attribute name and for any number of bases "
+      "(loop invariants), to select by the lookup order of the data model: own self-assignments, the bases' self-assignments in order, the class's "
+      "own body, the bases' class tables in order; the merge objects (first non-None / union), the grouping of attribute assignments "
+      "(loop invariant) and the binding of a method's first parameter are proved against their contracts.",
+      "Induction over the hierarchy depth is stated; hierarchies without repeated ancestors (C3 == depth-first left-to-right), as the property "
+      "says; that the evaluator yields the right kind of value for each expression form is assumed (only its guards are verified).",
+      "contract-based deductive verification: layered-table abstraction of the real merge functions with loop invariants", "DESIGN.md 3 C06")
